@@ -25,6 +25,25 @@ the child's allele at position1/position2 equals the parental allele on the hapl
 a switch of the transmitted haplotype visible in the phased haplotypes inside a phase set is listed; list = traced vector.
 Correspondence on every run: retained / homozygous positions, traced super-reads of every column, and which calls
 the writer phased, against the model.
+
+Deepening (recombination costs, genotype likelihoods, table -> constraint table):
+  (c') the real `PedigreeDPTable` with `distrust_genotypes=True` on the same pedigree shapes with phred likelihoods (called /
+      peaked / small / flat / arbitrary): super-reads = model `getAllelesLik`, optimal cost = sum of the model's column costs
+      + the recombination costs charged for the reported transmission vector (also for the trusted instances of (c)); the
+      clauses proved for the likelihood variant (child entry = entry of the transmitted parental haplotype, tie flag
+      included; definite trio => no conflict among the output genotypes) on the real super-reads;
+  (e)  `recombination_cost_map`, `uniform_recombination_map`, `centimorgen_to_phred` on generated maps / rates / positions
+      (valid and invalid: exceptions by name) = the model's float instance, bit for bit (doubles are exchanged as exact
+      mantissa/exponent pairs); an independent reading of the numbers (exact piecewise-linear interpolation, Haldane's map
+      function via expm1, clamp at 1e-10 cM); the laws the integer-stage theorems assume (rounded phred antitone, cap);
+  (f)  `GenotypeLikelihoods.as_phred` with and without regulariser = model (`asPhredFloat`, `plToPhred`);
+  table stage: `subset_rows_by_position` + `genotypes_of` after `find_phaseable_variants` = model `constraintTable`.
+Pipeline additions: every traced family: recombination cost vector handed to the solver = model for the run's genetic
+map / --recombrate on the accessible positions; genotype vectors handed to the solver = `constraintTable` of the INPUT
+genotypes; traced optimal cost = model column costs + recombination costs.  `--distrust-genotypes` runs (PL / GL / no
+likelihoods, --default-gq, --gl-regularizer, --include-homozygous, genotyping errors): traced likelihoods = model from the
+input records; super-reads = `getAllelesLik`; written genotype and phase = `outputGt` / `writerPhase`; proved clauses on
+the OUTPUT genotypes.  The property text is about trusted genotypes: likelihood runs only produce model disagreements.
 """
 import itertools, json, os, shutil
 
@@ -32,7 +51,9 @@ RULE = ("(a) a genotype triple; (b) a family genotype table; (c) a pedigree DP i
         "genotypes, reads, recombination costs); (d) a CLI run reduced to (family, per-variant input genotypes, traced "
         "reads/transmission/super-reads, output phase). Non-trivial: (b) the table has a retained and a discarded variant; "
         "(c) at least one column with a heterozygous child, and either reads or a homozygous parent; (d) at least one child "
-        "call phased. Distinct = distinct JSON of the case")
+        "call phased; (c') a likelihood DP instance in which a genotype changes or a trio column carries a tie flag; (e) a "
+        "cost-map input whose result has >= 2 different costs; (d') a --distrust-genotypes run with a changed genotype and a "
+        "phased call. Distinct = distinct JSON of the case")
 MANIFEST = dict(
     text="Lean 4 theorems about a model of the pedigree partitions (compute_haplotype_to_partition_rec), the admissible "
          "allele assignments and get_alleles of the column cost computer, mendelian_conflict, find_phaseable_variants, the "
@@ -57,6 +78,14 @@ ASSUMPTIONS = [
     "bit 2k / 2k+1 of it belong to the k-th trio in PED order; bit value 1 selects the parent's FIRST haplotype (as the "
     "code does); a run in which the opposite convention held consistently would be reported as a model disagreement",
     "a phased parent/child pair 'in the same set' = same PS (HP prefix) in the output VCF",
+    "recombination cost vector: the float stage (interpolation, exp/log10 of this machine's libm, round half to even) is "
+    "modelled in Lean `Float` and compared with the code bit for bit, not reasoned about; the integer-stage theorems (cap, "
+    "antitone, shape, uniform formula) hold for every arithmetic whose `<` is a strict weak order and whose rounded phred "
+    "value is antitone — tested on doubles by the check, not proved for them",
+    "likelihood variant (--distrust-genotypes) is outside the property text: its clauses are proved on the model and "
+    "reported as model disagreements if the implementation deviates; 32-bit overflow of costs not modelled",
+    "table -> constraint table: variant positions of a chromosome strictly increasing (no duplicate positions); the VCF "
+    "reader (records -> VariantTable genotypes) remains the seam `hreader`",
 ]
 
 GT_LIST = {"0/0": [0, 0], "0/1": [1, 0], "1/1": [1, 1], "./.": [], ".": [], "1/0": [1, 0]}
